@@ -243,19 +243,22 @@ def lhsUsed (lhs : List PTok) : List String := lhs.flatMap tokenRequired
 
 variable {ν : Type}
 
-/-- what the materializer is given: the data columns, the caller's context, the transforms
-(insertion-ordered dicts), and Python's builtins -/
+/-- what the materializer is given: the data columns and the transforms (insertion-ordered dicts),
+the caller's context — a plain dict or itself a `LayeredMapping` (what `capture_context()` and the
+frame capture of `model_matrix` produce: `LayeredMapping(locals, globals)`), possibly with named
+sub-layers — and Python's builtins -/
 structure Layers (ν : Type) where
   data : List (String × ν)
-  context : List (String × ν)
+  context : Layer ν
   transforms : List (String × ν)
   builtins : List (String × ν)
 
-/-- `FormulaMaterializer.layered_context` -/
+/-- `FormulaMaterializer.layered_context`: `LayeredMapping(LayeredMapping(data, name="data"),
+LayeredMapping(context, name="context"), LayeredMapping(TRANSFORMS, name="transforms"))` -/
 def Layers.lm (L : Layers ν) : LM ν :=
   { name := none, muts := [],
     layers := [.lm (some "data") [] [.dict L.data],
-               .lm (some "context") [] [.dict L.context],
+               .lm (some "context") [] [L.context],
                .lm (some "transforms") [] [.dict L.transforms]] }
 
 /-- `get_layer_name_for_key` -/
